@@ -54,7 +54,13 @@ def gen_one(rng, tier):
     nframes = rng.randint(3, 60 if big else 30)
     nc = rng.randint(1, 8 if big else 6)
     style = rng.random()
-    if style < 0.3:
+    if style < 0.12:
+        # near misses: the accumulated dt falls short of / passes a deadline
+        # by 2**-40 (all values and their sums are exactly representable)
+        eps = 2.0 ** -40
+        dts = [rng.choice([1 - eps, 1, 1 + eps, 0.5 - eps, 0.5, eps, 2 - eps])
+               for _ in range(nframes)]
+    elif style < 0.3:
         dts = [rng.choice([0.5, 1, 1])] * nframes
     elif style < 0.5:
         dts = [rng.choice([0, 0.125, 0.25, 1, 2, 16]) for _ in range(nframes)]
